@@ -36,7 +36,7 @@ theorem monitor_complete (c : Class) (o : Obs) : monitor c o = none ↔ P c o :=
     by_cases h6 : (o.res = .nil ∧ o.death ≠ .e0) ∨ (o.res = .exiterr ∧ o.death = .e0)
     · rw [if_pos h6] at h; cases h
     rw [if_neg h6] at h
-    by_cases h7 : o.term = .neg ∨ o.term = .at 0
+    by_cases h7 : o.term = .neg ∨ o.term = .at 0 ∨ (o.death = .st ∧ o.eb < 1)
     · rw [if_pos h7] at h; cases h
     rw [if_neg h7] at h
     by_cases h8 : o.death = .sk ∧ o.eb < 2
@@ -65,7 +65,7 @@ theorem monitor_complete (c : Class) (o : Obs) : monitor c o = none ↔ P c o :=
       · intro hr
         cases hd : o.death <;> simp_all
       · intro hr hd; exact h6 (Or.inr ⟨hr, hd⟩)
-    · exact ⟨fun hn => h7 (Or.inl hn), fun hn => h7 (Or.inr hn)⟩
+    · exact ⟨fun hn => h7 (Or.inl hn), fun hn => h7 (Or.inr (Or.inl hn)), fun hd => Nat.le_of_not_lt fun hlt => h7 (Or.inr (Or.inr ⟨hd, hlt⟩))⟩
     · intro hd; exact Nat.le_of_not_lt fun hlt => h8 ⟨hd, hlt⟩
     · intro hd; exact Nat.le_of_not_lt fun hlt => h9 ⟨hd, hlt⟩
     · intro hc hd hn; exact h10 ⟨hc, hd, hn⟩
@@ -85,7 +85,12 @@ theorem monitor_complete (c : Class) (o : Obs) : monitor c o = none ↔ P c o :=
         · exact b h'
         · exact e5 ⟨Or.inl a, h'⟩
       · exact h6.2 a b
-    have e7 : ¬ (o.term = .neg ∨ o.term = .at 0) := fun h => h.elim h7.1 h7.2
+    have e7 : ¬ (o.term = .neg ∨ o.term = .at 0 ∨ (o.death = .st ∧ o.eb < 1)) := by
+      intro h
+      rcases h with h | h | ⟨a, b⟩
+      · exact h7.1 h
+      · exact h7.2.1 h
+      · have := h7.2.2 a; omega
     have e8 : ¬ (o.death = .sk ∧ o.eb < 2) := fun ⟨a, b⟩ => by have := h8 a; omega
     have e9 : ¬ (o.res = .unresp ∧ o.eb < 3) := fun ⟨a, b⟩ => by have := h9 a; omega
     have e10 : ¬ (c.term ≠ .dfl ∧ o.death = .sk ∧ o.term = .none) := fun ⟨a, b, d⟩ => h10 a b d
@@ -153,10 +158,14 @@ theorem sound_clause (c : Class) (o : Obs) (x : Clause) (h : monitor c o = some 
       · exact h5 ⟨Or.inl a, h'⟩
     · exact hw.2 a b
   rw [if_neg h6] at h
-  by_cases h7 : o.term = .neg ∨ o.term = .at 0
+  by_cases h7 : o.term = .neg ∨ o.term = .at 0 ∨ (o.death = .st ∧ o.eb < 1)
   · rw [if_pos h7] at h; injection h with h; subst h
     simp only [violates, P_returns, P_bounded, P_childGone, P_noGoroutine, P_waited, P_result, P_termGrace, P_killGrace, P_giveUp, P_order, P_second, P_pending, P_eofFirst]
-    intro hw; exact h7.elim hw.1 hw.2
+    intro hw
+    rcases h7 with h | h | ⟨a, b⟩
+    · exact hw.1 h
+    · exact hw.2.1 h
+    · have := hw.2.2 a; omega
   rw [if_neg h7] at h
   by_cases h8 : o.death = .sk ∧ o.eb < 2
   · rw [if_pos h8] at h; injection h with h; subst h
@@ -208,10 +217,12 @@ theorem sound_notWaited (c : Class) (o : Obs) (h : monitor c o = some .notWaited
   have := sound_clause c o _ h
   simp only [violates, P_waited] at this
   exact Classical.byContradiction fun hn => this fun a b => hn ⟨a, b⟩
-theorem sound_termEarly (c : Class) (o : Obs) (h : monitor c o = some .termEarly) : o.term = .neg ∨ o.term = .at 0 := by
+theorem sound_termEarly (c : Class) (o : Obs) (h : monitor c o = some .termEarly) :
+    o.term = .neg ∨ o.term = .at 0 ∨ (o.death = .st ∧ o.eb < 1) := by
   have := sound_clause c o _ h
   simp only [violates, P_termGrace] at this
-  exact Classical.byContradiction fun hn => this ⟨fun a => hn (Or.inl a), fun a => hn (Or.inr a)⟩
+  exact Classical.byContradiction fun hn => this ⟨fun a => hn (Or.inl a), fun a => hn (Or.inr (Or.inl a)),
+    fun a => Nat.le_of_not_lt fun b => hn (Or.inr (Or.inr ⟨a, b⟩))⟩
 theorem sound_killEarly (c : Class) (o : Obs) (h : monitor c o = some .killEarly) : o.death = .sk ∧ o.eb < 2 := by
   have := sound_clause c o _ h
   simp only [violates, P_killGrace] at this
@@ -253,6 +264,11 @@ theorem deathObs_ne_nr (d : Option Death) (h : d.isSome) : deathObs d ≠ .nr :=
   | some d => cases d <;> simp [deathObs]
 
 theorem deathObs_sk (d : Option Death) (h : deathObs d = .sk) : d = some .sigKill := by
+  cases d with
+  | none => simp [deathObs] at h
+  | some d => cases d <;> simp [deathObs] at h ⊢
+
+theorem deathObs_st (d : Option Death) (h : deathObs d = .st) : d = some .sigTerm := by
   cases d with
   | none => simp [deathObs] at h
   | some d => cases d <;> simp [deathObs] at h ⊢
@@ -303,11 +319,23 @@ theorem model_satisfies_P (c : Class) (e : Env) (htd : 0 < e.td) (hs : e.stdinFa
     · simp [h.1, resObs]
   · -- term grace
     simp only [P_termGrace, modelObs]
-    rcases ht with h | h
-    · simp [h]
-    · simp only [h.1]
-      have : e.td / e.td = 1 := Nat.div_self htd
-      split <;> simp [this]
+    have hst : (if (run e).res = some .waited then deathObs (death e (run e).termAt (run e).killAt) else DeathObs.nr) = .st →
+        1 ≤ (run e).now / e.td := by
+      intro hd
+      split at hd
+      · have hts := death_term e _ _ (deathObs_st _ hd)
+        rcases ht with h | h
+        · simp [h] at hts
+        · omega
+      · cases hd
+    have : e.td / e.td = 1 := Nat.div_self htd
+    refine ⟨?_, ?_, hst⟩
+    · rcases ht with h | h
+      · simp [h]
+      · simp only [h.1]; split <;> simp
+    · rcases ht with h | h
+      · simp [h]
+      · simp only [h.1]; split <;> simp [this]
   · -- kill grace
     simp only [P_killGrace, modelObs]
     intro hd
@@ -385,6 +413,7 @@ example : monitor {} { res := .unresp, eb := 3, gone := false } = some .childLef
 example : monitor { term := .ign } { res := .exiterr, death := .sk, eb := 2 } = some .killWithoutTerm := by decide
 example : monitor {} { res := .nil, death := .nr } = some .notWaited := by decide
 example : monitor { term := .h0 } { res := .nil, death := .e0, eb := 1, term := .at 1, eofSeen := false } = some .termWithoutEof := by decide
-example : monitor {} { res := .exiterr, death := .st, eb := 0, term := .at 0 } = some .termEarly := by decide
+example : monitor {} { res := .exiterr, death := .st, eb := 1, term := .at 0 } = some .termEarly := by decide
+example : monitor {} { res := .exiterr, death := .st, eb := 0 } = some .termEarly := by decide
 
 end CmdTransport
